@@ -756,3 +756,48 @@ def rf161(run):
                           'function\'s temporary register number — `mov <that number>, callee` then overwrites an unrelated variable' % g.name,
                           line=g.line)
     return n
+
+
+# ---------------------------------------------------------------------------------------------
+# RF190: the merged top alloca keeps its address in a register of its own
+# ---------------------------------------------------------------------------------------------
+
+def rf190(run):
+    rule = 'RF190'
+    run.rule(rule, 'process_inlines: the addresses of all inlined frames are derived from the result register of the caller\'s (merged) top '
+                   'alloca, so that register must be one nothing else writes.  The flag `func_top_alloca_own_reg_p` becomes TRUE only in a '
+                   'statement list that has just given the alloca a *fresh* result register (`func_top_alloca->ops[0] = MIR_new_reg_op (…, '
+                   'new_temp_reg …)`).  Setting it where the alloca was created with the renamed register of the inlined callee lets the '
+                   'callee\'s own code move the base of every frame inlined after it')
+    tu = run.tu('mir')
+    f = tu.func('process_inlines')
+    run.functions_analysed.add(('mir', f.name))
+    sets = [x for x in f.walk() if x['k'] == 'BinaryOperator' and x['op'] == '=' and F.src(F.strip(x['c'][0])) == 'func_top_alloca_own_reg_p'
+            and F.const_value(F.strip(x['c'][1])) not in (0, None)]
+    if not sets:
+        raise F.AnalysisBroken('process_inlines: no place sets func_top_alloca_own_reg_p')
+    n = 0
+    for x in sets:
+        st, p_ = x, f.parent_of(x)
+        while p_ is not None and p_['k'] != 'CompoundStmt':
+            st, p_ = p_, f.parent_of(p_)
+        fresh = False
+        temp_fresh = False
+        for s_ in (F.kids(p_) if p_ is not None else []):
+            if s_ is st:
+                break
+            for y in F.walk(s_):
+                if y['k'] == 'BinaryOperator' and y['op'] == '=':
+                    l, r = F.src(F.strip(y['c'][0])), F.strip(y['c'][1])
+                    if l == 'temp_reg' and r['k'] == 'CallExpr' and r.get('callee') == 'new_temp_reg':
+                        temp_fresh = True
+                    if l.replace(' ', '') == 'func_top_alloca->ops[0]' and temp_fresh and 'temp_reg' in F.src(r):
+                        fresh = True
+        n += 1
+        run.ob(rule, (x['l'],), fresh, {'site': '%s:%d' % (f.relfile(), x['l']), 'alloca given a fresh result register just before': fresh})
+        if not fresh:
+            run.violation(rule, f, 'top alloca declared to own its register', 'process_inlines sets func_top_alloca_own_reg_p (line %d) without having '
+                          'replaced the result register of the top alloca by a fresh temporary: the alloca keeps the (renamed) register of an '
+                          'inlined callee, which that callee may reassign — the frames of the calls inlined afterwards are then addressed from '
+                          'the changed value' % x['l'], line=x['l'])
+    return n
